@@ -31,6 +31,7 @@ class FnSpec:
         self.external_body = False
         self.sig_replace = []      # (pattern, replacement)
         self.sig_extra = []        # further ensures clauses (text, file, line), appended after sig
+        self.iter_rewrites = {}    # loop ordinal -> (kind, index name, length expr)
 
 
 class Vc:
@@ -57,6 +58,8 @@ class Vc:
         self.includes = []
         self.replace_types = []
         self.defines = defines or {}
+        self.bases = []
+        self.module = None
         self._parse(path)
 
     def _expand(self, path, templates):
@@ -160,6 +163,12 @@ class Vc:
             flush()
             if word == 'unit':
                 self.unit = rest
+            elif word == 'base':
+                # units whose whole text (contracts + extracted sources, with bodies) is placed at the crate root, unverified in this unit:
+                # the functions of this unit see them only through their contracts (verus --verify-module)
+                self.bases = rest.split()
+            elif word == 'module':
+                self.module = rest
             elif word == 'source':
                 self.sources.append(rest)
             elif word in ('header', 'prelude', 'postlude'):
@@ -225,6 +234,11 @@ class Vc:
             elif word == 'closure':
                 m = re.match(r'(\d+)\s+(.*)$', rest)
                 cur = ('closure', (int(m.group(1)), m.group(2).strip()), path, ln + 1)
+            elif word == 'for-index':
+                # R6: `for P in E.iter_mut()` over an array of length N  ->  `for I in 0..N { let P = &mut E[I]; .. }`
+                #     `for (I, P) in E.into_iter().enumerate().take(N)` / `.iter().enumerate()`  ->  `for I in 0..N { let P = E[I]; .. }`
+                m = re.match(r'(\d+)\s+(\w+)\s+(.+)$', rest)
+                fn.iter_rewrites[int(m.group(1))] = (m.group(2), m.group(3).strip())
             elif word == 'end':
                 pass
             else:
@@ -284,11 +298,10 @@ class Extractor:
         self.rules.append({'rule': rid, 'file': path, 'line': line, 'what': what})
 
     # ------------------------------------------------------------ driver
-    def run(self):
+    def emit_body(self, out):
+        """prelude + extracted sources + postlude of this unit into `out` (no crate wrapper)"""
         vc = self.vc
-        for text, p, ln in vc.header:
-            self.out.add(text, {'kind': 'vc', 'file': p, 'line': ln})
-        self.out.add("verus! {", {'kind': 'gen'})
+        self.out = out
         for text, p, ln in vc.prelude:
             self.out.add(text, {'kind': 'vc', 'file': p, 'line': ln, 'part': 'prelude'})
         for rel in vc.sources:
@@ -300,11 +313,43 @@ class Extractor:
                 self.item(sf, it, "")
         for text, p, ln in vc.postlude:
             self.out.add(text, {'kind': 'vc', 'file': p, 'line': ln, 'part': 'postlude'})
-        self.out.add("} // verus!", {'kind': 'gen'})
-        self.out.add("fn main() {}", {'kind': 'gen'})
         missing = [n for n in vc.fns if n not in self.used_fnspecs]
         if missing:
             raise Unsupported("contracted functions not found in the source (lost anchor): %s" % ', '.join(sorted(missing)))
+
+    def run(self):
+        vc = self.vc
+        out = self.out
+        seen_hdr = set()
+        base_exs = []
+        for b in vc.bases:
+            bdefs = dict(vc.defines)
+            bdefs.pop('canary', None)
+            bvc = Vc(os.path.join(os.path.dirname(vc.path), b), bdefs)
+            base_exs.append(Extractor(self.repo, bvc))
+        for hv in [e.vc for e in base_exs] + [vc]:
+            for text, p, ln in hv.header:
+                if text not in seen_hdr:
+                    seen_hdr.add(text)
+                    out.add(text, {'kind': 'vc', 'file': p, 'line': ln})
+        out.add("verus! {", {'kind': 'gen'})
+        for e in base_exs:
+            out.add("// ===================== base unit %s: at the crate root, NOT verified in this unit (proved in its own unit; seen here through its contracts)" % e.vc.unit, {'kind': 'gen'})
+            e.emit_body(out)
+            for f in e.functions:
+                f['base'] = e.vc.unit
+            self.base_functions = getattr(self, 'base_functions', []) + e.functions
+            self.rules.extend(dict(r, base=e.vc.unit) for r in e.rules)
+            self.warnings.extend('[base %s] %s' % (e.vc.unit, w) for w in e.warnings)
+        if vc.module:
+            out.add("mod %s {" % vc.module, {'kind': 'gen'})
+            out.add("use vstd::prelude::*;", {'kind': 'gen'})
+            out.add("use super::*;", {'kind': 'gen'})
+        self.emit_body(out)
+        if vc.module:
+            out.add("} // mod %s" % vc.module, {'kind': 'gen'})
+        self.out.add("} // verus!", {'kind': 'gen'})
+        self.out.add("fn main() {}", {'kind': 'gen'})
         return self
 
     def dropped_by(self, desc):
@@ -618,6 +663,8 @@ class Extractor:
         origin_fn = lambda p, ln: {'kind': 'vc', 'file': p, 'line': ln, 'fn': q, 'tags': tags}
         body = Body(it.body)
         self.loop_guard_edits(sf, body, edits, q)
+        if spec is not None and spec.iter_rewrites:
+            self.for_index_edits(sf, body, spec, edits, q)
         if spec is not None:
             for at in spec.attrs:
                 edits.append((it.kw_start, it.kw_start, at + '\n' + indent, {'kind': 'gen'}, -5))
@@ -668,6 +715,55 @@ class Extractor:
                 if is_tok(e, '&') and 0 < i < len(h) - 1 and is_group(h[i - 1], '(') and is_group(h[i + 1], '('):
                     edits.append((e.start, e.end, '&&', {'kind': 'rule', 'rule': 'R4'}))
                     self.rule('R4', sf.rel, sf.line_of(e.start), 'non-short-circuit & on bool in the while guard of %s -> &&' % q)
+
+    def for_index_edits(self, sf, body, spec, edits, q):
+        """R6: explicit index walk for `iter_mut()` / `into_iter().enumerate().take(N)` / `iter().enumerate()` loops over arrays."""
+        src = sf.src
+        for k, (idx, length) in spec.iter_rewrites.items():
+            if k >= len(body.loops):
+                raise Unsupported("%s: for-index loop %d not found" % (q, k))
+            lp = body.loops[k]
+            if lp.kw.text != 'for':
+                raise Unsupported("%s: loop %d is not a for loop" % (q, k))
+            h = lp.head
+            pos_in = [i for i, e in enumerate(h) if is_tok(e, 'in')][0]
+            pat = h[:pos_in]
+            expr = h[pos_in + 1:]
+            toks = [e.text if not is_group(e) else '()' for e in expr]
+            tail = ''.join(toks)
+            pat_src = src[pat[0].start:pat[-1].end]
+            def chain_start(names):
+                # expr ends with .name1().name2()... ; returns index in expr where the chain starts, or None
+                j = len(expr)
+                for nm in reversed(names):
+                    if j >= 3 and is_group(expr[j - 1], '(') and is_tok(expr[j - 2], nm) and is_tok(expr[j - 3], '.'):
+                        j -= 3
+                    else:
+                        return None
+                return j
+            j = chain_start(['iter_mut'])
+            if j is not None:
+                base = src[expr[0].start:expr[j - 1].end]
+                new_head = '%s in 0..%s' % (idx, length)
+                bind = ' let %s = &mut %s[%s];' % (pat_src, base, idx)
+                what = 'for %s in %s.iter_mut() -> index walk %s in 0..%s' % (pat_src, base, idx, length)
+            else:
+                j = chain_start(['into_iter', 'enumerate', 'take']) or chain_start(['iter', 'enumerate']) or chain_start(['into_iter', 'enumerate'])
+                if j is None or not (len(pat) == 1 and is_group(pat[0], '(')):
+                    raise Unsupported("%s: loop %d is not an iter_mut / enumerate loop (R6)" % (q, k))
+                base = src[expr[0].start:expr[j - 1].end]
+                inner = [e for e in pat[0].children if not is_tok(e, ',')]
+                if len(inner) != 2 or not is_tok(inner[0], kind='ident'):
+                    raise Unsupported("%s: loop %d: enumerate pattern must be (index, item)" % (q, k))
+                src_idx = inner[0].text
+                item = src[inner[1].start:inner[1].end]
+                by_ref = chain_start(['iter', 'enumerate']) is not None
+                new_head = '%s in 0..%s' % (src_idx, length)
+                bind = ' let %s = %s%s[%s];' % (item, '&' if by_ref else '', base, src_idx)
+                what = 'for (%s, %s) in %s%s -> index walk %s in 0..%s' % (src_idx, item, base, tail[len(''.join(toks[:j])):], src_idx, length)
+            edits.append((pat[0].start, expr[-1].end, new_head, {'kind': 'rule', 'rule': 'R6'}))
+            edits.append((lp.body.open.end, lp.body.open.end, bind, {'kind': 'rule', 'rule': 'R6'}, -8))
+            self.rule('R6', sf.rel, sf.line_of(lp.kw.start), what + ' in ' + q)
 
     def anchor_edits(self, sf, it, body, spec, edits, q, origin_fn):
         src = sf.src
@@ -785,7 +881,8 @@ def build_unit(repo, vcpath, outdir, defines=None, variant=None):
         f.write(text)
     meta = {
         'unit': name, 'vc': vcpath, 'sources': vc.sources, 'rules': ex.rules, 'warnings': ex.warnings, 'dropped': ex.dropped,
-        'functions': ex.functions, 'origin': ex.out.origin, 'sha256': hashlib.sha256(text.encode()).hexdigest(),
+        'functions': ex.functions, 'base_functions': getattr(ex, 'base_functions', []), 'module': vc.module,
+        'origin': ex.out.origin, 'sha256': hashlib.sha256(text.encode()).hexdigest(),
     }
     with open(os.path.join(outdir, name + '.map.json'), 'w') as f:
         json.dump(meta, f)
